@@ -136,6 +136,16 @@ def gen_case(rng: Rng, i: int, tier: str):
             for f in folders:
                 if r.chance(0.7):
                     f["chain"].append({"id": "AES"})
+    rs = rng.sub("salt")
+    if rs.chance(0.6):
+        # key derivation parameters per folder, as other writers choose them: a salt of 1..16 bytes (py7zr and 7-Zip write none) and
+        # a cycle count of its own - the key of one folder is not the key of the next
+        for f in folders:
+            for cdr in f["chain"]:
+                if cdr["id"] == "AES" and rs.chance(0.8):
+                    cdr["salt_hex"] = rs.randbytes(rs.randint(1, 16)).hex()
+                    if rs.chance(0.4):
+                        cdr["cycles"] = rs.pick([6, 8, 9, 11])
     layout = {"folders": folders, "crc": r.wpick([(4, "substream"), (2, "folder"), (1, "none")]), "packcrc": r.chance(0.3), "packpos": r.pick([0, 0, 0, 1, 7, 64]),
               "omit_nums": r.chance(0.5), "dummy": r.pick([0, 0, 2, 3, 5, 18]), "dummy_tail": r.pick([0, 0, 4]), "emptyfile_vector_always": r.chance(0.2),
               "names_first": r.chance(0.8), "header": header, "password": password, "iv_seed": r.randrange(256), "no_substreams": r.chance(0.2),
